@@ -38,7 +38,9 @@ QUOTE_ALPHA = ['a', '"', '\\', '\n', '\t', '\r', '\x00', '\u00e9', '\u2028', '('
                '\x0b', '\x85', 'u', 'n', '0']     # (escape letters and a hex digit: backslash+u, backslash+n ... as content)
 EXTRA = ['true', 'false', 'null', 'NaN', 'Infinity', '-Infinity', '1e400', '-0', '01', '1.', '.5',
          '"\\u00e9"', '"\\x"', '[1]', '{"a":1}', '"a" "b"', '""', '"', '1e-400', '-1e400', 'True',
-         'None', '0x10', '1_0', '+1', '1e5', '1E+5', '-0.0', '"\\ud800"', 'nan', 'inf', '\u0661', '\uff11\uff12', '\u00b2', '1\u0662', '[]', '{}', '[[]]', '"a\nb"', '-', '--1', '1e', '1e+', '0.', '-.5', '00', '"\\""', '"\\"']
+         'None', '0x10', '1_0', '+1', '1e5', '1E+5', '-0.0', '"\\ud800"', 'nan', 'inf', '\u0661', '\uff11\uff12', '\u00b2', '1\u0662', '[]', '{}', '[[]]', '"a\nb"', '-', '--1', '1e', '1e+', '0.', '-.5', '00', '"\\""', '"\\"',
+         '9007199254740993', '-9007199254740993', '18446744073709551617', '123456789012345678901234567890',
+         '9007199254740993.0', '0.1000000000000000055511151231257827', '1e22', '1e23', '4.35', '2.675e2']
 BATCH = 4000
 NONTRIVIAL_CHARS = '"\\\n\t\r\x00\u2028\x0b\x85'
 
@@ -134,6 +136,14 @@ def check_atom(ctx, a):
             if want_int != (type(v) is int) or (not want_int and type(v) is not float):
                 ctx.fail('evaluate:number-type', detail=dict(det, value=repr(v)))
             ctx.count('int' if type(v) is int else 'float')
+            # ... and it is *that* number: exact for integers of any size, the nearest double otherwise
+            try:
+                exact = int(a) if want_int else float(a)
+            except (ValueError, OverflowError):
+                exact = None
+            if exact is not None and type(v) is type(exact) and not (v == exact or (v != v and exact != exact)):
+                ctx.fail('evaluate:number-value', mech='int' if want_int else 'float',
+                         detail=dict(det, value=repr(v), want=repr(exact)))
         elif a in ('', None):
             if v is not None:
                 ctx.fail('evaluate:empty-not-None', detail=dict(det, value=repr(v)))
@@ -214,4 +224,14 @@ def oracle(ctx, kind, p):
         a = ''.join(rng.choice(ATOM_ALPHA + list('23456789') + ['e+', 'E-', '.0']) for _ in range(rng.randrange(1, 12)))
         ctx.current = ['atom', {'a': a}]
         nt = check_atom(ctx, a)
+        if p['i'] % 5 == 0:
+            # long numerals: integers beyond 2**53, many fraction digits, large exponents
+            big = rng.choice(['', '-']) + str(rng.randrange(1, 10)) + ''.join(rng.choice('0123456789') for _ in range(rng.randrange(15, 40)))
+            if rng.random() < 0.3:
+                big += '.' + ''.join(rng.choice('0123456789') for _ in range(rng.randrange(1, 25)))
+            if rng.random() < 0.2:
+                big += rng.choice(['e', 'E']) + rng.choice(['', '+', '-']) + str(rng.randrange(0, 300))
+            ctx.current = ['atom', {'a': big}]
+            check_atom(ctx, big)
+            ctx.count('long_numerals')
         ctx.case((x, a), True)
